@@ -357,12 +357,63 @@ pub fn check(ctx: &mut Ctx) {
         }
         None
     });
+    // two tags in one document whose attribute texts coincide once quotes are dropped: each is decided on its own
+    {
+        let mut docs: Vec<(String, String, String)> = vec![];
+        // (tag A, tag B, element name): A is ready, B is not (or vice versa)
+        let pairs: &[(&str, &str, &str, bool, bool)] = &[
+            ("rm", "name=\"a\" b=\"c\"", "name=\"a b=c\"", true, false),
+            ("rm", "name='a' skip", "name='a skip'", false, false),
+            // a single-line unwrap-block element is left untouched although its condition holds
+            ("rm", "name='a' unwrap-block", "name='a unwrap-block'", false, false),
+            ("tl", "to=\"2020-01-01 00:00:00\" x=\"y\"", "to=\"2020-01-01 00:00:00 x=y\"", true, false),
+            ("rm", "c='name=a' name='b'", "c='x' name='a'", false, true),
+            ("rm", "name='a'", "name=\"a\"", true, true),
+        ];
+        for (tag, a, b, ra, rb) in pairs {
+            for (first, second, rf, rs) in [(a, b, ra, rb), (b, a, rb, ra)] {
+                for sep in ["\n", " ", "x"] {
+                    let e1 = format!("<{tag} {first}>P</{tag}>");
+                    let e2 = format!("<{tag} {second}>Q</{tag}>");
+                    let src = format!("A{e1}{sep}{e2}B");
+                    let expect = format!("A{}{sep}{}B", if *rf { String::new() } else { e1.clone() }, if *rs { String::new() } else { e2.clone() });
+                    docs.push((src, expect, tag.to_string()));
+                }
+            }
+        }
+        let n = docs.len();
+        ctx.exhaustive("look-alike-tags", &format!("{n} documents with two tags whose attribute texts coincide once the quotes are dropped (a quoted value is opaque: each element is decided on its own)"), vec![docs], |docs, obs| {
+            let mut cfg = Cfg::simple("<", ">");
+            cfg.targets = vec!["a".into()];
+            for (src, expect, _) in docs {
+                obs.eval();
+                let c = OpaqueCase { ds: "<".into(), de: ">".into(), tag: src.clone(), attrs: vec![], sep: String::new(), opaque: expect.clone(), pos: 0, expect_removed: false };
+                match call_clean(src, &cfg) {
+                    Ok(out) if out == *expect || nows(&out) == nows(expect) => obs.nontrivial_counted(|| json!({"src": src, "out": out})),
+                    Ok(out) => return Some(fail_case("look-alike-tags", &c, format!("clean({src:?}) = {out:?}, expected {expect:?}"))),
+                    Err(p) => return Some(fail_case("look-alike-tags", &c, format!("clean panicked: {p}"))),
+                }
+            }
+            None
+        });
+    }
     ctx.random("random-tags", 40, 600_000, 40_000_000, gen, |c, obs| oracle(c, obs, false));
     ctx.random("opaque-attribute", 30, 300_000, 15_000_000, gen_opaque, opaque_oracle);
 }
 
 pub fn replay(sub: &str, case: &Value, obs: &mut Obs) -> Result<Verdict, String> {
     match sub {
+        "look-alike-tags" => replay_case::<OpaqueCase, _>(case, obs, |c, obs| {
+            // `tag` holds the document, `opaque` the expected output
+            obs.eval();
+            let mut cfg = Cfg::simple("<", ">");
+            cfg.targets = vec!["a".into()];
+            match call_clean(&c.tag, &cfg) {
+                Ok(out) if nows(&out) == nows(&c.opaque) => Verdict::Pass,
+                Ok(out) => Verdict::Fail(format!("clean({:?}) = {out:?}, expected {:?}", c.tag, c.opaque)),
+                Err(p) => Verdict::Fail(format!("clean panicked: {p}")),
+            }
+        }),
         "opaque-attribute" => replay_case::<OpaqueCase, _>(case, obs, |c, obs| {
             obs.eval();
             opaque_oracle(c, obs)
